@@ -23,6 +23,7 @@ package main
 //       exchange, a loaded session, SetAuthKey — not the one it had when the transport was made or when the
 //       first packet came. The results of the steps are joined with " ; "; each step is judged as a
 //       c04.route of its own (key, packet, expectation).
+//   c04.client enc <key> <pkt> <expect> …   the same one level up: ONE real client in encrypted mode (c04client.go)
 // and for every operation, independent of the expectation: never a panic; an accepted message must
 // be what the specification's receiver (direction 8) recovers from those bytes.
 
@@ -90,6 +91,12 @@ func c04Exec1(op []string) string {
 			return "bad-op"
 		}
 		return c04Session(op[1:])
+	case "c04.client":
+		// the same question one level up, through the real client's receive loop (see c04client.go)
+		if len(op) < 5 || (len(op)-2)%3 != 0 {
+			return "bad-op"
+		}
+		return c04Client(op[1], op[2:])
 	}
 	return "bad-op"
 }
@@ -213,6 +220,8 @@ func c04Judge(op []string, out string) string {
 		return "the receive path panics: " + clip(out)
 	}
 	switch op[0] {
+	case "c04.client":
+		return c04JudgeClient(op, out)
 	case "c04.session":
 		if out == "bad-op" {
 			return ""
@@ -560,6 +569,9 @@ func c04Gen(g *G) {
 	// (8) one transport, a session whose auth key changes between packets (see c04.session above): the packet
 	// under the key the session had BEFORE must be refused, the one under the key it has NOW accepted
 	c04GenSessions(g)
+
+	// (9) the same through the real client working under its auth key: a frame with zero key id yields no message
+	c04GenClients(g)
 
 	// (7) unencrypted packets: inconsistent length, wrong parity, truncation
 	for _, bl := range []int{0, 4, 20, 60} {
